@@ -840,7 +840,7 @@ class ListOp(Op):
                 elif meth == "setslice" and not (isinstance(a[1], dict) and "raise_after" in a[1]):
                     L[_slice(a[0])] = list(wrap_items(m, a[1]) if "from_ir" in a[1] else a[1]["items"])
                 leaving = [x for x in cur if x not in L]
-            except (IndexError, ValueError):
+            except (IndexError, ValueError, TypeError):
                 leaving = []
             gone = set()
             for x in leaving:
@@ -1028,7 +1028,8 @@ class ListOp(Op):
             elif meth == "reversed":
                 val = ["plain", list(reversed(L))]
             exp = Exp("ok", value=val, owner=owner)
-        except (IndexError, ValueError, SimFault) as e:
+        except (IndexError, ValueError, TypeError, SimFault) as e:
+            # (TypeError: an index that is no integer - "x", None, 1.5 - fails like the built-in's)
             exp = Exp("exc", exc_cls=type(e), owner=owner)
             L = list(L0)
         # Resulting contents. live list as the implementation shows it:
